@@ -115,6 +115,11 @@ func (dm *DagModifier) WriteAt(b []byte, offset int64) (int, error) {
 		}
 		dm.writeStart = uint64(offset)
 		dm.curWrOff = uint64(offset)
+	} else if dm.wrBuf == nil {
+		// Nothing is buffered and offset is the current offset, but a Read
+		// may have advanced that offset past the start recorded for the next
+		// buffer: the bytes must land at offset.
+		dm.writeStart = uint64(offset)
 	}
 
 	return dm.Write(b)
